@@ -150,3 +150,25 @@ Theorem forged_quote_not_forwarded : forall K now self_peer self_key quotes out 
   wf_quote q = true -> wf_quote q0 = true -> check_signed K q0 p = true ->
   signature q = signature q0 -> signed_fields q <> signed_fields q0 -> ~ In (p, q) out.
 Proof. exact forged_quote_not_forwarded_lemma. Qed.
+
+(* ---- bad_nodes and the QuoteVerification arm of handle_local_cmd ---- *)
+Theorem issue_constants :
+  Consts.issue_retention_secs = 300 /\ Consts.issue_list_cap = 10 /\
+  Consts.issue_rate_limit_secs = 10 /\ Consts.issue_strikes = 3.
+Proof. exact issue_constants_ok. Qed.
+
+(* only peers already considered bad are skipped; issues on record alone never exempt a peer *)
+Theorem skip_only_if_bad : forall now st p q,
+  snd (handle_quote now st p q) = None <-> peer_is_bad (d_bad st) p = true.
+Proof. exact skip_only_if_bad_lemma. Qed.
+
+Theorem not_bad_regression_flagged : forall now st p q ref,
+  peer_is_bad (d_bad st) p = false -> h_lookup p (d_hist st) = Some ref ->
+  timestamp ref <= timestamp q -> reports_less q ref ->
+  snd (handle_quote now st p q) = Some true.
+Proof. exact not_bad_regression_flagged_lemma. Qed.
+
+Theorem bad_needs_three_strikes : forall clk bn p k,
+  peer_is_bad bn p = false -> peer_is_bad (record_node_issue clk bn p k) p = true ->
+  exists iv, bn_lookup p (record_node_issue clk bn p k) = Some (iv, true) /\ three_strikes iv = true.
+Proof. exact bad_needs_three_strikes_lemma. Qed.
